@@ -41,7 +41,10 @@ ReadOps == {"repo.ls", "repo.ls+limit", "tag.ls", "image.config", "m:config", "b
             "image.ratelimitWait", "m:ratelimitWait"}
            \cup ManifestGetOps \cup ManifestListOps \cup ManifestHeadOps
 GuardOps == {"if.head", "ifnot.head"}
-CtlOps == {"error", "foreach"} \cup GuardOps
+\* ways a script can abort: error("text"), error of a table / number / boolean / nothing, error with a
+\* level argument, a Lua runtime fault (index of nil), unbounded recursion (stack overflow)
+ErrorOps == {"error", "error:table", "error:number", "error:bool", "error:nil", "error:level", "error:index", "error:recurse"}
+CtlOps == ErrorOps \cup {"foreach"} \cup GuardOps
 AllOps == ReadOps \cup WriteOps \cup ExportOps \cup CtlOps
 \* bindings that take a slot of the shared throttle (pqueue of size defaults.parallel)
 ThrottledOps == {"image.config", "m:config", "image.importTar", "image.exportTar"} \cup CopyOps
